@@ -3,6 +3,6 @@
 set -e
 cd "$(dirname "$0")"
 python3 tools/extract.py /repo lean/Minimq/Generated.lean
-(cd lean && lake build Minimq driver)
+(cd lean && lake build Minimq.All driver)
 [ -f harness/Cargo.lock ] || cp /repo/Cargo.lock harness/Cargo.lock
 (cd harness && CARGO_NET_OFFLINE=true cargo build --offline --release)
